@@ -59,6 +59,9 @@ pub fn run(case: &str, args: &[String]) -> Option<Value> {
             }
         }
         "push.ops" => push_ops(&a[0], &a[1]),
+        "uri.roundtrip" => uri_roundtrip(&a),
+        "uri.matrixto_parse" => res(ruma_common::MatrixToUri::parse(&a[0]).map(|u| u.to_string())),
+        "uri.matrix_parse" => res(ruma_common::MatrixUri::parse(&a[0]).map(|u| u.to_string())),
         _ => return None,
     })
 }
@@ -117,4 +120,67 @@ fn push_ops(start: &str, ops: &str) -> Value {
         "room": rs.room.iter().map(|r| d(r.rule_id.as_str(), r.enabled, r.default, r.actions.len())).collect::<Vec<_>>(),
         "sender": rs.sender.iter().map(|r| d(r.rule_id.as_str(), r.enabled, r.default, r.actions.len())).collect::<Vec<_>>(),
     }})
+}
+
+
+/// uri.roundtrip <matrixto|matrix> <id> [event_id|-] [action|-] [via...]: format a URI value and parse the text back
+fn uri_roundtrip(a: &[String]) -> Value {
+    use ruma_common::{MatrixToUri, MatrixUri, OwnedServerName};
+    let scheme = a[0].as_str();
+    let id = a[1].as_str();
+    let ev = a.get(2).map(|s| s.as_str()).filter(|s| *s != "-");
+    let action = a.get(3).map(|s| s.as_str()).filter(|s| *s != "-").is_some();
+    let via: Vec<OwnedServerName> = match a.iter().skip(4).map(|s| OwnedServerName::try_from(s.as_str())).collect::<Result<_, _>>() {
+        Ok(v) => v,
+        Err(_) => return json!({"outcome": "skip", "detail": "invalid via"}),
+    };
+    let ev = match ev {
+        Some(e) => match <&ruma_common::EventId>::try_from(e) {
+            Ok(e) => Some(e.to_owned()),
+            Err(_) => return json!({"outcome": "skip", "detail": "invalid event id"}),
+        },
+        None => None,
+    };
+    enum U { To(MatrixToUri), Mx(MatrixUri) }
+    let u = if id.starts_with('!') {
+        let Ok(i) = <&ruma_common::RoomId>::try_from(id) else { return json!({"outcome": "skip", "detail": "invalid id"}) };
+        match (scheme, ev) {
+            ("matrixto", Some(e)) => U::To(i.matrix_to_event_uri_via(e, via.clone())),
+            ("matrixto", None) => U::To(i.matrix_to_uri_via(via.clone())),
+            (_, Some(e)) => U::Mx(i.matrix_event_uri_via(e, via.clone())),
+            (_, None) => U::Mx(i.matrix_uri_via(via.clone(), action)),
+        }
+    } else if id.starts_with('#') {
+        let Ok(i) = <&ruma_common::RoomAliasId>::try_from(id) else { return json!({"outcome": "skip", "detail": "invalid id"}) };
+        match (scheme, ev) {
+            ("matrixto", Some(e)) => U::To(i.matrix_to_event_uri(e)),
+            ("matrixto", None) => U::To(i.matrix_to_uri()),
+            (_, Some(e)) => U::Mx(i.matrix_event_uri(e)),
+            (_, None) => U::Mx(i.matrix_uri(action)),
+        }
+    } else if id.starts_with('@') {
+        let Ok(i) = <&ruma_common::UserId>::try_from(id) else { return json!({"outcome": "skip", "detail": "invalid id"}) };
+        match scheme {
+            "matrixto" => U::To(i.matrix_to_uri()),
+            _ => U::Mx(i.matrix_uri(action)),
+        }
+    } else {
+        return json!({"outcome": "skip", "detail": "unsupported id kind"});
+    };
+    match u {
+        U::To(u) => {
+            let text = u.to_string();
+            match MatrixToUri::parse(&text) {
+                Ok(back) => json!({"outcome": if back == u { "ok" } else { "err" }, "detail": format!("text={text} back={back}")}),
+                Err(e) => json!({"outcome": "err", "detail": format!("text={text} parse error {e:?}")}),
+            }
+        }
+        U::Mx(u) => {
+            let text = u.to_string();
+            match MatrixUri::parse(&text) {
+                Ok(back) => json!({"outcome": if back == u { "ok" } else { "err" }, "detail": format!("text={text} back={back}")}),
+                Err(e) => json!({"outcome": "err", "detail": format!("text={text} parse error {e:?}")}),
+            }
+        }
+    }
 }
